@@ -133,6 +133,10 @@ pub fn lib<R>(f: impl FnOnce() -> R) -> Option<R> {
     ARMED.store(true, Ordering::Relaxed);
     let r = catch_unwind(AssertUnwindSafe(f));
     ARMED.store(false, Ordering::Relaxed);
+    if r.is_err() {
+        // the panic machinery allocates; a panicking call is outside every allocation claim
+        ALLOC_EVENTS.store(0, Ordering::Relaxed);
+    }
     r.ok()
 }
 
